@@ -58,6 +58,13 @@ class TRow(Ty):
         return smt.Row
 
 
+class TLine(Ty):
+    """one line of a binary FASTA file (smt.Line)"""
+
+    def sort(self):
+        return smt.Line
+
+
 class TStrSeq(Ty):
     """tuple of str (Fragment.tags)"""
 
@@ -156,6 +163,14 @@ class TBytes(TTuple):
 
 
 BYTES = TBytes([INT, INT, INT])
+LINE = TLine()
+
+
+class TSpan(TTuple):
+    """a match object of re.finditer over bytes, reduced to its span: (start, end)"""
+
+
+SPAN = TSpan([INT, INT])
 
 
 class Val:
